@@ -424,7 +424,8 @@ MUTANTS = [
     dict(name="rule right hcount from left fragment", file=RULE, expect="O3.5",
          old='new_t1 = (t1[0], t1[1], right_graph.nodes[node]["hcount"], t1[3], t1[4])',
          new='new_t1 = (t1[0], t1[1], left_graph.nodes[node]["hcount"], t1[3], t1[4])'),
-    dict(name="smarts sides swapped", file=SR, expect="O3.6", XX),
+    dict(name="smarts sides swapped", file=SR, expect="O3.6",
+         old="r_smi = graph_to_smi(left)\n        p_smi = graph_to_smi(right)", new="r_smi = graph_to_smi(right)\n        p_smi = graph_to_smi(left)"),
     dict(name="glue on the un-inverted rule", file=SR, expect="O3.6", old="rc_raw = self.rule.rc.raw", new="rc_raw = self.template"),
 ]
 
